@@ -934,8 +934,11 @@ func (i *Interpreter) ApplyTypeDefaults(obj map[string]interface{}, typeDef Type
 
 // executeFunction executes a user-defined function
 func (i *Interpreter) executeFunction(fn Function, args []Expr, env *Environment) (interface{}, error) {
-	// Create a new environment for the function
-	fnEnv := NewChildEnvironment(env)
+	// Create a new environment for the function. Its parent is the module
+	// scope, not the caller's scope: a function body must neither see nor
+	// overwrite the caller's local variables (arguments are still evaluated
+	// in the caller's environment below).
+	fnEnv := NewChildEnvironment(i.globalEnv)
 
 	// Count required parameters (those marked required without defaults)
 	requiredCount := 0
@@ -1064,8 +1067,8 @@ func (i *Interpreter) executeGenericFunction(fn Function, typeArgs []Type, args 
 		i.typeChecker.PopTypeScope(names)
 	}()
 
-	// Create a new environment for the function
-	fnEnv := NewChildEnvironment(env)
+	// Create a new environment for the function (module scope as parent, see executeFunction)
+	fnEnv := NewChildEnvironment(i.globalEnv)
 
 	// Validate argument count
 	if len(argValues) != len(instantiatedFn.Params) {
@@ -1439,8 +1442,8 @@ func (i *Interpreter) callWithPipedArg(fn interface{}, pipedVal interface{}, ext
 
 // executeFunctionWithValues executes a user-defined function with pre-evaluated argument values
 func (i *Interpreter) executeFunctionWithValues(fn Function, argVals []interface{}, env *Environment) (interface{}, error) {
-	// Create a new environment for the function
-	fnEnv := NewChildEnvironment(env)
+	// Create a new environment for the function (module scope as parent, see executeFunction)
+	fnEnv := NewChildEnvironment(i.globalEnv)
 
 	// Count required parameters (those marked required without defaults)
 	requiredCount := 0
@@ -1642,7 +1645,7 @@ func (i *Interpreter) evaluateResultMethod(result *ResultValue, method string, a
 func (i *Interpreter) callFnArg(fn interface{}, arg interface{}, env *Environment) (interface{}, error) {
 	switch f := fn.(type) {
 	case Function:
-		fnEnv := NewChildEnvironment(env)
+		fnEnv := NewChildEnvironment(i.globalEnv)
 		if len(f.Params) > 0 {
 			fnEnv.Define(f.Params[0].Name, arg)
 		}
